@@ -69,6 +69,30 @@ def r11_1(prog: Program, rep: Report):
         if kind is None and p.exit[0] == "return":
             if p.exit[1] != t0:
                 exits_ok = False
+    # the loop runs `while <sentinel> is not <current>`: every peel must leave them different, or the loop stops after one layer
+    import ast as _ast
+
+    wl = [n for n in _ast.walk(f.node) if isinstance(n, _ast.While)]
+    names = None
+    if wl and isinstance(wl[0].test, _ast.Compare) and isinstance(wl[0].test.left, _ast.Name) and len(wl[0].test.comparators) == 1 and isinstance(wl[0].test.comparators[0], _ast.Name) and isinstance(wl[0].test.ops[0], _ast.IsNot):
+        names = (wl[0].test.left.id, wl[0].test.comparators[0].id)
+    if names:
+        for p in ps:
+            if not any(e[0] == "whileend" for e in p.events):
+                continue
+            last = {}
+            for e in p.events:
+                if e[0] == "whileend":
+                    break
+                if e[0] == "assign" and e[1] in names:
+                    last[e[1]] = e[2]
+            cur = {n: last.get(n, ("param", n) if n in f.params else None) for n in names}
+            if len(last) and cur[names[0]] is not None and cur[names[0]] == cur[names[1]]:
+                gs = [T.show(g)[:40] for g, pol in p.guards() if pol][-1:]
+                rep.violated("R11.1", q, f.loc, f"a peel branch ({gs}) leaves the loop sentinel equal to the peeled value, so `while {names[0]} is not {names[1]}` stops after one layer: an alias of an alias (or of a NewType) is only half unwrapped", detail="sentinel")
+                break
+        else:
+            rep.held("R11.1", q, f.loc, "every peel leaves the loop sentinel different from the peeled value (the loop goes on)", detail="sentinel")
     labels = {"qualifier": "Final/ClassVar (t.__args__[0])", "alias": "TypeAliasType (t.__value__)", "alias-string": "string-valued TypeAliasType (forward reference in the alias's module)", "newtype": "NewType (t.__supertype__)"}
     for k, ok in found.items():
         rep.check(ok, "R11.1", q, f.loc, f"unwrap peels {labels[k]}", f"unwrap has no branch that peels {labels[k]}: such annotations are dispatched as opaque objects", detail=k)
@@ -146,8 +170,12 @@ def r11_7(prog: Program, rep: Report, rule="R11.7"):
         mod = kw.get("module")
         if mod is not None and T.is_call_to(mod, "typelib.py.refs._resolve_module_name"):
             marg = mod[2][1] if len(mod[2]) > 1 else dict(mod[3]).get("module")
-            if marg is not None and T.contains(marg, lambda s: T.is_call_to(s, "builtins.getattr") and s[2][:2] == (ref, ("const", "__module__"))) and not T.contains(marg, lambda s: T.is_call_to(s, f"{C.INSP}.resolve_supertype", f"{C.INSP}.unwrap")):
+            own = marg is not None and T.contains(marg, lambda s: T.is_call_to(s, "builtins.getattr") and s[2][:2] == (ref, ("const", "__module__"))) and not T.contains(marg, lambda s: T.is_call_to(s, f"{C.INSP}.resolve_supertype", f"{C.INSP}.unwrap"))
+            caller_first = marg is not None and marg[0] == "boolop" and marg[1] == "or" and marg[2][0] == ("param", "module")
+            if own and caller_first:
                 ok_module = True
+            elif own:
+                why_mod = "the object's own __module__ takes precedence over the module the caller supplied: a ForwardRef instance has no module of its own (the attribute lookup finds 'typing'), so the module passed by the graph for a revisited string alias is lost"
             else:
                 why_mod = "the module is not the given object's own __module__"
         ok_flags = kw.get("is_class") == ("param", "is_class") and kw.get("is_argument") == ("param", "is_argument")
